@@ -87,14 +87,14 @@ func (p vC20PktSpec) String() string {
 	return p.kind
 }
 
-func vC20GenPktSpec(t *rapid.T, seq int, punchBias int) vC20PktSpec {
+func vC20GenPktSpec(t *rapid.T, seq int, punchBias int, maxLen int) vC20PktSpec {
 	var p vC20PktSpec
 	p.form = rapid.IntRange(0, 2).Draw(t, "addrForm")
 	p.seed = rapid.Uint64().Draw(t, "pseed")
 	switch c := rapid.IntRange(0, 9+punchBias).Draw(t, "pclass"); {
 	case c <= 1:
 		p.kind = rapid.SampledFrom(vC20PlainKinds).Draw(t, "plainKind")
-		p.bytes = vC20GenPlain(t, p.kind)
+		p.bytes = vC20GenPlain(t, p.kind, maxLen)
 	case c <= 4:
 		p.kind = rapid.SampledFrom(vC20StunKinds).Draw(t, "stunKind")
 		p.bytes = vC20GenSTUN(t, p.kind, seq)
@@ -145,7 +145,10 @@ func vC20Materialize(p vC20PktSpec, seq int, metas []vC20Meta, history []vC20Pkt
 			out.b = vC20Fill(p.seed, 40)
 			out.kind = "random"
 		} else {
-			h := history[p.replay%len(history)]
+			h := history[(p.replay>>1)%len(history)]
+			if p.replay&1 != 0 { // half of the replays repeat one of the last four packets
+				h = history[len(history)-1-(p.replay>>1)%min(4, len(history))]
+			}
 			out.b = append([]byte(nil), h.b...)
 			out.kind = "replay:" + h.kind
 		}
@@ -226,7 +229,7 @@ func TestVerifC20_Demux(t *testing.T) {
 		if capacity <= 0 {
 			capacity = 16
 		}
-		bufLen := rapid.SampledFrom([]int{1452, 2048, 65536}).Draw(rt, "readBuf")
+		bufLen := rapid.SampledFrom([]int{1500, 2048, 65536}).Draw(rt, "readBuf")
 		nops := rapid.IntRange(1, 24).Draw(rt, "nops")
 		var ops []vC20Op
 		seq := 0
@@ -240,7 +243,7 @@ func TestVerifC20_Demux(t *testing.T) {
 				n := rapid.IntRange(1, 5).Draw(rt, "burst")
 				op := vC20Op{kind: "inject"}
 				for k := 0; k < n; k++ {
-					op.pkts = append(op.pkts, vC20GenPktSpec(rt, seq, 2))
+					op.pkts = append(op.pkts, vC20GenPktSpec(rt, seq, 2, bufLen))
 					seq++
 				}
 				ops = append(ops, op)
@@ -440,7 +443,7 @@ func TestVerifC20_Concurrent(t *testing.T) {
 		genPkts := func(n int, bias int) []vC20PktSpec {
 			var out []vC20PktSpec
 			for k := 0; k < n; k++ {
-				out = append(out, vC20GenPktSpec(rt, seq, bias))
+				out = append(out, vC20GenPktSpec(rt, seq, bias, 2048))
 				seq++
 			}
 			return out
@@ -1011,6 +1014,11 @@ func FuzzVerifC20_Classify(f *testing.F) {
 	f.Add(append([]byte{0xC3, 0, 0, 0, 1, 8}, vC20Fill(3, 1194)...), m.nonce[:], m.key[:], byte(0))
 	f.Add(append([]byte{0x41}, vC20Fill(4, 40)...), m.nonce[:], m.key[:], byte(0))
 	f.Add([]byte{0x01, 0x01, 0x00, 0x00, 0x21, 0x12, 0xa4, 0x42}, m.nonce[:], m.key[:], byte(0))
+	for _, top := range []byte{0x40, 0x80, 0xC0} {
+		rb := append([]byte(nil), okStun...)
+		rb[0] |= top
+		f.Add(rb, m.nonce[:], m.key[:], byte(0))
+	}
 	f.Add([]byte{}, []byte{}, []byte{}, byte(0))
 	f.Fuzz(func(t *testing.T, data []byte, nonce []byte, key []byte, mode byte) {
 		if len(data) > 1500 {
